@@ -1,6 +1,7 @@
 package main
 
 import (
+	"regexp"
 	"bytes"
 	"crypto/sha256"
 	"encoding/json"
@@ -47,6 +48,10 @@ type Unit struct {
 	// implicit non-nil-argument obligations at modular call sites are dropped too: they are nil-dereference safety
 	// of the callee, not a written clause)
 	Scope string `json:"scope,omitempty"`
+	// RootsByTag: of the listed roots, run only those whose contract carries a clause tagged for this property, plus
+	// roots without any property tag (shared helpers). Used where several properties share one list of roots: each
+	// contract is then discharged by the check(s) whose clauses it carries, and used modularly by the others.
+	RootsByTag bool `json:"roots_by_tag,omitempty"`
 	// Lockset: run the static lock-discipline analysis (type contracts protected_by / immutable / ...) over every
 	// function of the unit's packages
 	Lockset bool `json:"lockset,omitempty"`
@@ -181,6 +186,19 @@ func runUnit(u Unit, cfg *PropConfig, tier string, workdir string, res *checkRes
 			continue
 		}
 		f := e.findFunc(r)
+		if f != nil && u.RootsByTag {
+			if tags := contractTags(e.contractFor(f)); len(tags) > 0 {
+				mine := false
+				for t := range tags {
+					if strings.HasPrefix(t, cfg.ID+".") {
+						mine = true
+					}
+				}
+				if !mine {
+					continue
+				}
+			}
+		}
 		if f == nil {
 			res.engineErrors = append(res.engineErrors, "root function not found: "+r)
 			continue
@@ -801,4 +819,39 @@ func runWitness(k *KnownFinding) string {
 		return "passes now: the recorded finding is stale"
 	}
 	return "could not run: " + firstLines(string(out), 3)
+}
+
+var tagRe = regexp.MustCompile(`\[(C[0-9][0-9]\.[A-Za-z0-9_.]+)\]`)
+
+// contractTags: every property tag mentioned by the clauses and tagged flags of a function contract.
+func contractTags(c *FuncContract) map[string]bool {
+	out := map[string]bool{}
+	if c == nil {
+		return out
+	}
+	add := func(cl Clause) {
+		if cl.Tag != "" {
+			out[cl.Tag] = true
+		}
+	}
+	for _, cl := range c.Requires {
+		add(cl)
+	}
+	for _, cl := range c.Ensures {
+		add(cl)
+	}
+	for _, lc := range c.Loops {
+		for _, cl := range lc.Invariants {
+			add(cl)
+		}
+	}
+	for _, at := range c.Ats {
+		add(at.Clause)
+	}
+	for _, v := range c.Flags {
+		for _, m := range tagRe.FindAllStringSubmatch(v, -1) {
+			out[m[1]] = true
+		}
+	}
+	return out
 }
